@@ -161,6 +161,13 @@ def run(facts, out):
     if cl is not None:
         names = [callee_of(t)['name'] for bb, t in cl.calls() if callee_of(t)]
         ok = names[-1:] == ['trim_end'] and 'trim' not in names and 'trim_start' not in names
+        if not ok and names[-1:] == ['trim_end_matches'] and 'trim' not in names and 'trim_start' not in names:
+            # `trim_end_matches(char::is_whitespace)` is `trim_end`
+            for bb, t in cl.calls():
+                c = callee_of(t)
+                if c and c['name'] == 'trim_end_matches':
+                    ok = any(a.get('k') == 'const' and isinstance(a.get('fn'), dict) and a['fn'].get('name') == 'is_whitespace'
+                             for a in t['args'])
         out.add('FR-F3', cl.path, 'trailing-trim', '%s:%d' % (cl.file, cl.line), ok,
                 '' if ok else 'curr_line must end in str::trim_end only (calls: %s)' % names, ordinal=False)
     return tab
